@@ -383,7 +383,8 @@ func (f *baseFs) Chown(name string, uid, gid int) error {
 }
 
 func (f *baseFs) Chtimes(name string, atime time.Time, mtime time.Time) error {
-	_, err := f.c.do(Op{Kind: "chtimes", Path: clean(name), Mutating: true}, func(bool) (int, error) { return 0, f.c.b.Inner.Chtimes(name, atime, mtime) })
+	// (ModTime: the modification time that is being set)
+	_, err := f.c.do(Op{Kind: "chtimes", Path: clean(name), Mutating: true, ModTime: mtime.UnixNano()}, func(bool) (int, error) { return 0, f.c.b.Inner.Chtimes(name, atime, mtime) })
 	return err
 }
 
